@@ -20,6 +20,8 @@ const (
 // kase is one executed case: what the identity provider was scripted to say, what that means, what happened.
 type kase struct {
 	Prov   string `json:"provider"`
+	Cfg    string `json:"configuration,omitempty"` // "" = the provider as its constructor builds it with no option set
+	CfgOpt string `json:"configuration_options,omitempty"`
 	Site   string `json:"site"` // redeem (provider.Redeem called directly) | callback (real /start -> /callback)
 	Index  int    `json:"index"`
 	Class  string `json:"class"`
